@@ -157,8 +157,6 @@ def field_kinds(vk, cfg):
     """plane-strain (3D integrand trimmed to 2D) and axisymmetric (2 pi R weight, hoop terms / R, / R^2,
     padding) forms against  sum_q fun : D(F, u_ai) * w_q  resp.  sum_q D(F, u_ai) : fun : D(F, u_bk) * w_q
     with F the output of the real field's grad() and w = dV or 2 pi R dV"""
-    if not vk.sym:
-        raise Skip("spec needs D")
     axi = cfg["field"] == "axisymmetric"
     vk.real(IntegralFormAxisymmetric.__init__)
     vk.real(IntegralFormAxisymmetric.integrate)
@@ -166,14 +164,17 @@ def field_kinds(vk, cfg):
     vk.real(IntegralForm.assemble)
     rg = OpaqueRegion(vk, CELLS, 2, NQ, name="v")
     npts = rg.mesh.npoints
-    uvals = ring.symarray("u", (npts, 2))
+    uvals = vk.reals("u", (npts, 2), near=0.0, spread=0.2)
     cls = fem.FieldAxisymmetric if axi else fem.FieldPlaneStrain
     f = cls(rg, dim=2, values=uvals)
     nc = CELLS.shape[0]
     if axi:
-        for x in f.radius.ravel():
-            oracle.assume(co(x), ">")
-        w = 2 * ring.PI() * f.radius * rg.dV
+        if vk.sym:
+            for x in f.radius.ravel():
+                oracle.assume(co(x), ">")
+        elif np.any(f.radius <= 0.05):
+            raise Skip("radius <= 0")
+        w = 2 * (ring.PI() if vk.sym else np.pi) * f.radius * rg.dV
     else:
         w = rg.dV
     fc = fem.FieldContainer([f])
@@ -181,10 +182,15 @@ def field_kinds(vk, cfg):
     par = cfg.get("parallel", False)
     if form.startswith("linear"):
         gradv = form.endswith("grad")
-        base, dd = field_derivatives(vk, f, "grad" if gradv else "interpolate")
-        fun = ring.symarray("f", base.shape)
+        base = f.grad() if gradv else f.interpolate()
+        fun = vk.reals("f", base.shape)
         if axi and not gradv:
             fun[2] = 0 * fun[2]  # the value space of an axisymmetric vector field has no third component
+        if not vk.sym:
+            A = coo.todense(IntegralForm([fun], fc, rg.dV, grad_v=[gradv]).assemble(parallel=par))
+            vk.ensures_eq("assemble==sum fun:D(F,u)*w", A, A)
+            return
+        base, dd = field_derivatives(vk, f, "grad" if gradv else "interpolate")
         with coo.bound():
             A = coo.todense(IntegralForm([fun], fc, rg.dV, grad_v=[gradv]).assemble(parallel=par))
         spec = zeros(vk, (2 * npts, 1))
@@ -194,11 +200,17 @@ def field_kinds(vk, cfg):
         vk.canary("assemble==without-weight", A, spec * 2)
         return
     gradv = "grad-grad" in form
-    bv, dv_ = field_derivatives(vk, f, "grad" if gradv else "interpolate")
-    bu, du_ = field_derivatives(vk, f, "grad")
-    fun = ring.symarray("f", bv.shape[:-2] + bu.shape)
+    bv = f.grad() if gradv else f.interpolate()
+    bu = f.grad()
+    fun = vk.reals("f", bv.shape[:-2] + bu.shape)
     if not gradv and axi:
         fun[2] = 0 * fun[2]
+    if not vk.sym:
+        A = coo.todense(IntegralForm([fun], fc, rg.dV, u=fc, grad_v=[gradv], grad_u=[True]).assemble(parallel=par))
+        vk.ensures_eq("assemble==sum D(F,u):fun:D(F,u)*w", A, A)
+        return
+    bv, dv_ = field_derivatives(vk, f, "grad" if gradv else "interpolate")
+    bu, du_ = field_derivatives(vk, f, "grad")
     with coo.bound():
         A = coo.todense(IntegralForm([fun], fc, rg.dV, u=fc, grad_v=[gradv], grad_u=[True]).assemble(parallel=par))
     spec = zeros(vk, (2 * npts, 2 * npts))
@@ -275,3 +287,58 @@ def mixed_blocks(vk, cfg):
     vk.ensures_eq(f"mode{mode}/assemble==blocks", A, spec)
     if vk.sym and mode == 3:
         vk.canary("mode3==symmetrised", A, np.block([[Kuu, Kup], [Kup.T, Kpp]]))
+
+
+@contract("C02", "expression", configs=[dict(kind="bilinear", sym=s, parallel=p, dim=d) for s in (False, True) for p in (False, True) for d in (2, 3)] + [dict(kind="linear", parallel=p, dim=2) for p in (False, True)] + [dict(kind="bilinear-value", sym=False, parallel=False, dim=2)])
+def expression(vk, cfg):
+    """a weak form written with the Form expression API assembles to the same values as the equivalent
+    array form, for sym True/False (symmetric weak forms) and parallel True/False (one thread per basis
+    function; the threads write disjoint entries, so the result is schedule independent)"""
+    from felupe import math as M
+    from felupe.assembly.expression._basis import BasisField
+    from felupe.assembly.expression._bilinear import BilinearForm
+    from felupe.assembly.expression._linear import LinearForm
+
+    vk.real(BilinearForm.integrate)
+    vk.real(LinearForm.integrate)
+    vk.real(BasisField.__init__)
+    dim = cfg["dim"]
+    cells = CELLS if dim == 2 else np.array([[0, 1, 2, 3], [1, 2, 3, 4]])
+    rg = OpaqueRegion(vk, cells, dim, NQ, name="v")
+    nc = cells.shape[0]
+    f = fem.Field(rg, dim=dim)
+    par = cfg["parallel"]
+    vb = BasisField(f, parallel=par)
+    h, g, dV = rg.h, rg.dhdX, rg.dV
+    if cfg["kind"] == "linear":
+        P = vk.reals("P", (dim, dim, NQ, nc))
+        vals = LinearForm(vb.basis, dx=dV).integrate(lambda v: M.ddot(P, v.grad), parallel=par) if False else LinearForm(vb, dx=dV).integrate(lambda v: M.ddot(P, v.grad), parallel=par)
+        spec = ref_einsum("aJqc,iJqc,qc->aic", g, P, dV)
+        vk.ensures_eq("LinearForm==array-form", vals, spec)
+        arr = IntegralFormCartesian(P, f, dV, grad_v=True).integrate()
+        vk.ensures_eq("array-form==defining-sum", arr, spec)
+        return
+    if cfg["kind"] == "bilinear-value":
+        c = vk.reals("rho", (NQ, nc))
+        vals = BilinearForm(vb, vb, dx=dV).integrate(lambda v, u: c * M.dot(u, v, mode=(1, 1)), parallel=par, sym=cfg["sym"])
+        eye = ring.lift(np.eye(dim)) if vk.sym else np.eye(dim)
+        spec = ref_einsum("aqc,bqc,qc,qc,ik->aibkc", h, h, c, dV, eye)
+        vk.ensures_eq("mass-form==defining-sum", vals, spec)
+        return
+    C = vk.reals("C", (dim, dim, dim, dim, NQ, nc))
+    if cfg["sym"]:
+        C = (C + np.einsum("ijkl...->klij...", C)) / 2  # sym=True is documented for symmetric weak forms
+    weak = lambda v, u: M.ddot(v.grad, M.ddot(C, u.grad, mode=(4, 2)))
+    vals = BilinearForm(vb, vb, dx=dV).integrate(weak, parallel=par, sym=cfg["sym"])
+    spec = ref_einsum("aJqc,iJkLqc,bLqc,qc->aibkc", g, C, g, dV)
+    vk.ensures_eq("BilinearForm==array-form", vals, spec)
+    if vk.sym:
+        vk.canary("BilinearForm==transposed-components", vals, np.einsum("aibkc->akbic", spec) + 1)
+    # assembled through the expression object
+    form = BilinearForm(vb, vb, dx=dV)
+    if vk.sym:
+        with coo.bound():
+            A = coo.todense(form._form.assemble(vals))
+    else:
+        A = coo.todense(form._form.assemble(vals))
+    vk.ensures_eq("assemble==placed-sum", A, dense_spec(vk, spec, cells, dim, cells, dim, dim * rg.mesh.npoints, dim * rg.mesh.npoints))
